@@ -336,6 +336,8 @@ FILESETS = {
     "lower": [("hello", "bin", 2, 0, 0x0E00, 0x0E00, list(range(50)))],          # what assembler.py writes for `NAM hello`
     "three": [("A", "BIN", 2, 0, 0x1000, 0x1000, [9] * 300), ("LONGNAME", "BIN", 2, 0, 0x2000, 0x2002, [7] * 2299),
               ("C3", "BIN", 2, 0, 0x3000, 0x3003, [3])],
+    "prefix": [("GAME", "BIN", 2, 0, 0x0E00, 0x0E10, [7] * 39), ("GAME2", "BIN", 2, 0, 0x3000, 0x3008, [1, 2, 3, 4]),
+               ("LOADER", "BIN", 2, 0, 0x0600, 0x0601, [9, 8])],
     "with-empty": [("FIRST", "BIN", 2, 0, 0x1000, 0x1000, [1, 2]), ("EMPTY", "BIN", 2, 0, 0x2000, 0x2000, []),
                    ("LAST", "BIN", 2, 0, 0x3000, 0x3000, [5])],
 }
@@ -372,6 +374,9 @@ class CliFileUtil:
                 for sel in (["ALPHA"], ["alpha"], ["Beta", "ALPHA"], ["BETA"], ["NOPE"]):
                     out.append({"id": "fu/%s-to-%s/two/files=%s" % (src, dst, "+".join(sel)), "k": "conv", "src": src, "dst": dst,
                                 "set": "two", "sel": sel})
+                for sel in (["game2"], ["Game2", "LOADER"], ["GAME"], ["LOADER", "GAME"], ["AME"]):
+                    out.append({"id": "fu/%s-to-%s/prefix/files=%s" % (src, dst, "+".join(sel)), "k": "conv", "src": src, "dst": dst,
+                                "set": "prefix", "sel": sel})
                 out.append({"id": "fu/%s-to-%s/lower/files=hello" % (src, dst), "k": "conv", "src": src, "dst": dst, "set": "lower",
                             "sel": ["hello"]})
                 out.append({"id": "fu/%s-to-%s/lower/files=HELLO" % (src, dst), "k": "conv", "src": src, "dst": dst, "set": "lower",
